@@ -171,6 +171,40 @@ func singleStore(addr ssa.Value) ssa.Value {
 	return nil
 }
 
+// singleStoreInstr is singleStore returning the store instruction as well.
+func singleStoreInstr(addr ssa.Value) (ssa.Value, *ssa.Store) {
+	a, ok := addr.(*ssa.Alloc)
+	if !ok {
+		return nil, nil
+	}
+	var the *ssa.Store
+	n := 0
+	var visit func(f *ssa.Function, target ssa.Value)
+	visit = func(f *ssa.Function, target ssa.Value) {
+		Instrs(f, func(in ssa.Instruction) {
+			switch s := in.(type) {
+			case *ssa.Store:
+				if s.Addr == target {
+					n++
+					the = s
+				}
+			case *ssa.MakeClosure:
+				for i, b := range s.Bindings {
+					if b == target {
+						cf := s.Fn.(*ssa.Function)
+						visit(cf, cf.FreeVars[i])
+					}
+				}
+			}
+		})
+	}
+	visit(a.Parent(), a)
+	if n == 1 {
+		return the.Val, the
+	}
+	return nil, nil
+}
+
 // StoresTo lists all values stored to an Alloc (through closures as well).
 func StoresTo(addr *ssa.Alloc) []ssa.Value {
 	var out []ssa.Value
@@ -235,9 +269,13 @@ func chase(v ssa.Value) ssa.Value {
 						addr = b
 					}
 				}
-				if s := singleStore(addr); s != nil {
-					v = s
-					continue
+				if s, st := singleStoreInstr(addr); s != nil {
+					// within one function the store must dominate the load,
+					// otherwise the zero value may be observed
+					if st.Parent() != x.Parent() || Dominates(st, x) {
+						v = s
+						continue
+					}
 				}
 			}
 			return v
